@@ -130,6 +130,21 @@ for _flip in (False, True):
             h.eq(f'rebuild middle={nm}', base.eul2r(e), R, tol=1e-6)
 
 
+for _flip in (False, True):
+    @claim(f'eul-ranges:flip={_flip}', values=True)
+    def _(h, flip=_flip):
+        """every extracted Euler angle lies in [-pi, pi] (radians) and the degree form is the radian form times 180/pi"""
+        a, b, c = h.angle('a'), h.angle('b'), h.angle('c')
+        R = h.arr(eul_ref(h, a, b, c))
+        e = base.tr2eul(R, flip=flip)
+        pi = math.pi
+        for k in range(3):
+            h.true(f'angle{k} >= -pi', e[k] >= -pi)
+            h.true(f'angle{k} <= pi', e[k] <= pi)
+        ed = base.tr2eul(R, flip=flip, unit='deg')
+        h.eq('deg = rad*180/pi', ed, e * (180 / pi), tol=1e-9, scale=180)
+
+
 @claim('eul-documented-order')
 def _(h):
     a, b, c = h.angle('a'), h.angle('b'), h.angle('c')
